@@ -91,7 +91,9 @@ class PITConv2d(nn.Conv2d, PITModule):
         if self.fold_bn:
             # apply mask to the weights
             pruned_weight = torch.mul(self.weight, cout_mask.view(-1, 1, 1, 1))
-            return self._conv_forward(input, pruned_weight, self.bias)
+            # the bias (which includes the folded BatchNorm) of a masked feature must vanish too
+            pruned_bias = None if self.bias is None else torch.mul(self.bias, cout_mask)
+            return self._conv_forward(input, pruned_weight, pruned_bias)
         else:
             y = self._conv_forward(input, self.weight, self.bias)
             if self.bn is not None:
